@@ -149,6 +149,17 @@ fn translate_block(
         // slot, return. We always want to have enough bytes to handle a delay
         // slot.
         if offset >= bytes.len() {
+            // If the bytes end between a branch and its delay slot we cannot
+            // lift the branch: its successors have already been recorded, but
+            // the branch itself is still waiting for the delay slot.
+            if let TranslateBranchDelay::DelaySlot(..)
+            | TranslateBranchDelay::DelaySlotFallThrough(..) = branch_delay
+            {
+                return Err(Error::Custom(format!(
+                    "Bytes end before the delay slot of the branch at 0x{:x}",
+                    address + offset as u64 - 4
+                )));
+            }
             successors.push((address + offset as u64, None));
             break;
         }
